@@ -163,3 +163,42 @@ Example C17_identity_witness :
   dget (file_of 2 (snd r)) (allm (snd r)) = Some 2.
 Proof. vm_compute. repeat split; reflexivity. Qed.
 Print Assumptions C17_identity_witness.
+
+(* SEVERAL REGISTERED LANGUAGES (Model/Repo.v: load_main_x with the external cache of the other languages' global
+   repositories, ml_load).  Read-once holds for every external cache; the single-language loader is the special
+   case without external cache.  Identity does NOT extend to separate per-language global repositories: *)
+Theorem C17_loaded_once_across_languages : forall x xvals fs c f s,
+  NoDup (map fst (allm (begin_op c s))) ->
+  fst (load_main_x x xvals fs c f s) <> inl EFuel /\ NoDup (reads (snd (load_main_x x xvals fs c f s))).
+Proof. exact load_main_x_once. Qed.
+Print Assumptions C17_loaded_once_across_languages.
+
+Theorem C17_single_language_is_no_external_cache : forall fs c f s,
+  load_main_x (fun _ => None) [] fs c f s = load_main fs c f s.
+Proof. exact load_main_x_none. Qed.
+Print Assumptions C17_single_language_is_no_external_cache.
+
+(* a file cached in the global repository of its own language is not read again when a model of another language
+   imports it, and the importer is handed that very model *)
+Theorem C17_external_cache_is_used : forall x ld m g s m',
+  dhas g (local_of m s) = false -> dget g (allm s) = None -> x g = Some m' ->
+  load_model (with_ext x ld) m g s = (None, set_local m g m' (set_all g m' s)).
+Proof. exact load_model_ext_hit. Qed.
+Print Assumptions C17_external_cache_is_used.
+
+(* refuted (known finding separate-global-repositories, replayed on the implementation by corpus/C17/
+   ml_cycle_separate_repos.json): two languages with separate global repositories, a.model <-> b.typ; b.typ loaded first
+   (its repository then holds an instance of a.model), then a.model: the result contains the cached b.typ, whose
+   reference to e0 points into the FIRST a.model instance, not into the model registered for a.model *)
+Theorem C17_identity_separate_repositories_refuted :
+  exists fs mc ms f m s' repos' x n t i,
+    ml_load fs mc f ms = (inr m, (s', repos')) /\ In x (included m s') /\
+    resolve_name (mkCfg true false []) s' x n = Some (t, i) /\ t <> x /\ dget (file_of t s') (allm s') <> Some t.
+Proof.
+  set (fs := [mkFile [[1]] [100%N] [101%N] false false false; mkFile [[0]] [101%N] [100%N] false false false]).
+  set (mc := mkML [true; true] [0; 1]).
+  exists fs, mc, (snd (ml_load fs mc 1 (init_state [], []))), 0.
+  eexists. eexists. eexists. exists 0, 100%N, 1, 0.
+  split; [vm_compute; reflexivity|]. vm_compute. repeat split; auto; try discriminate.
+Qed.
+Print Assumptions C17_identity_separate_repositories_refuted.
